@@ -327,8 +327,12 @@ example : verifyP th ⟨enc 8, 9⟩ (enc 1) B0 (Transcript.new [2]) = false :=
     rfl
 
 /-- the hypotheses of `challenge_differs_of_transcript_ne` are satisfiable: two contexts with different labels -/
-example : challengeOf th (enc 1) (enc 7) B0 (Transcript.new [2]) ≠ challengeOf th (enc 1) (enc 7) B0 (Transcript.new [5]) := by
-  rw [chal_th, chal_th]; decide
+example : challengeOf th (enc 1) (enc 7) B0 (Transcript.new [2]) ≠
+    challengeOf th (enc 1) (enc 7) B0 (Transcript.new [5]) :=
+  challenge_differs_of_transcript_ne tgo (canon_enc 1) (canon_enc 7) (canon_enc 1) (canon_enc 1) (canon_enc 7)
+    (canon_enc 1)
+    (fun e => absurd e (by show beToNat [2] % secpQ ≠ beToNat [5] % secpQ; decide))
+    (fun e => absurd e.1 (by decide))
 
 /-- x = 0: the honest proof made in context [2] verifies in context [5] -/
 example (tape : Tape) :
